@@ -319,6 +319,14 @@ func (e *Enforcer) ClearPolicy() {
 		return
 	}
 	e.model.ClearPolicy()
+
+	// the grouping rules are gone, so are the role links derived from them
+	for _, rm := range e.rmMap {
+		_ = rm.Clear()
+	}
+	for _, crm := range e.condRmMap {
+		_ = crm.Clear()
+	}
 }
 
 // LoadPolicy reloads the policy from file/database.
